@@ -178,8 +178,9 @@ def run(slot, first, count, scale):
     os.makedirs(outdir, exist_ok=True)
     results = os.path.join(outdir, "results.jsonl")
     done = set()
-    if os.path.exists(results):
-        for l in open(results):
+    import glob
+    for fn in glob.glob(os.path.join(outdir, "*.jsonl")):
+        for l in open(fn):
             try:
                 done.add(json.loads(l)["id"])
             except Exception:
